@@ -50,6 +50,10 @@ structure Slot where
   dang4 : List Nat
   dang6 : List Nat
   inhibit : Bool
+  /-- how many addresses the factory worker has decided to ask for and has not yet received the answer
+      for (its local variables `v4Count`, `v6Count`; for a new ENI: the create call's counts) -/
+  plan4 : Nat := 0
+  plan6 : Nat := 0
   deriving DecidableEq, Repr
 
 def Slot.empty : Slot :=
@@ -71,6 +75,7 @@ structure Req where
 /-- a direct-path reply that has not been handed over yet (`go func(){ lock; commit }`) -/
 structure Pending where
   req : Nat
+  pod : String
   slot : Nat
   pick : List Nat
   /-- the picked addresses the pod did not hold before the request (released if the caller is gone) -/
@@ -403,7 +408,8 @@ structure Pool where
   ledger : List (String × Nat)
   deriving Repr
 
-def Pool.slot (p : Pool) (i : Nat) : Slot := (p.slots[i]?).getD Slot.empty
+def slotAt (l : List Slot) (i : Nat) : Slot := (l[i]?).getD Slot.empty
+def Pool.slot (p : Pool) (i : Nat) : Slot := slotAt p.slots i
 def Pool.upd (p : Pool) (i : Nat) (f : Slot → Slot) : Pool := { p with slots := updateAt p.slots i f }
 def Pool.req? (p : Pool) (r : Nat) : Option Req := p.reqs.find? (·.id == r)
 
@@ -463,19 +469,20 @@ def Slot.fdHead (dn : List Nat) (s : Slot) : Slot :=
 def Pool.step (p : Pool) : Ev → Option Pool
   | .allocate i r pin out =>
     let s := p.slot i
-    if allocOutcomeOK p.cfg p.done s r.pod r.nocache pin out then
+    -- requests of one pod do not overlap (the daemon's pending-pod guard, C04)
+    if allocOutcomeOK p.cfg p.done s r.pod r.nocache pin out && !(p.commits.any (·.pod == r.pod)) then
       let p1 := { p.upd i (fun s => s.allocate p.cfg p.done r pin out) with reqs := if p.reqs.any (·.id == r.id) then p.reqs else r :: p.reqs }
       match out with
-      | .direct pick => some { p1 with commits := { req := r.id, slot := i, pick := pick.map (·.ip), fresh := freshOf pick r.pod } :: p1.commits }
+      | .direct pick => some { p1 with commits := { req := r.id, pod := r.pod, slot := i, pick := pick.map (·.ip), fresh := freshOf pick r.pod } :: p1.commits }
       | _ => some p1
     else none
   | .commit r delivered =>
-    match p.commits.find? (·.req == r), p.req? r with
-    | some c, some rq =>
-      let p1 := p.upd c.slot fun s => { s with ips := commitIPs s.ips rq.pod c.pick c.fresh delivered }
+    match p.commits.find? (·.req == r) with
+    | some c =>
+      let p1 := p.upd c.slot fun s => { s with ips := commitIPs s.ips c.pod c.pick c.fresh delivered }
       some { p1 with commits := p.commits.filter (·.req != r),
-                     acks := if delivered then addAcks (ackOf (p.slot c.slot).eni rq.pod c.pick) p.acks else p.acks }
-    | _, _ => none
+                     acks := if delivered then addAcks (ackOf (p.slot c.slot).eni c.pod c.pick) p.acks else p.acks }
+    | none => none
   | .workerServe i r pick delivered =>
     match p.req? r with
     | some rq =>
@@ -495,14 +502,21 @@ def Pool.step (p : Pool) : Ev → Option Pool
     let s := p.slot i
     -- the status was checked before the pause, not after it: with an ENI the worker goes on whatever
     -- the status has become meanwhile
-    if s.eni.isSome then some (p.upd i fun s => s.faPlanPurge p.done)
+    let (n4, n6) := match s.faPlan p.cfg p.done with
+      | .create a b => (a, b)
+      | .assign a b => (a, b)
+    if s.eni.isSome then some (p.upd i fun s => { s.faPlanPurge p.done with plan4 := n4, plan6 := n6 })
     else if s.status == .init || s.status == .inUse then
-      some (p.upd i fun s => { s.faPlanPurge p.done with status := .creating })
+      some (p.upd i fun s => { s.faPlanPurge p.done with status := .creating, plan4 := n4, plan6 := n6 })
     else none
   | .faCreated i v4n v6n res =>
     let s := p.slot i
-    if s.status == .creating && s.eni.isNone then
-      let s1 := s.created v4n v6n res
+    -- the cloud hands out an interface id no slot has, and at most as many addresses as were asked for
+    if s.status == .creating && s.eni.isNone && v4n == s.plan4 && v6n == s.plan6 &&
+        decide (res.v4.length ≤ v4n) && decide (res.v6.length ≤ v6n) && (res.v4 ++ res.v6).Nodup &&
+        res.v4.all (· < v6Base) && res.v6.all (v6Base ≤ ·) && (res.err.isSome || res.eni.isSome) &&
+        (match res.eni with | some e => p.slots.all (·.eni != some e) | none => true) then
+      let s1 := { s.created v4n v6n res with plan4 := 0, plan6 := 0 }
       let dn := preheatIn p s1 ++ p.done
       some { p.upd i (fun _ => s1.faHeadPurge dn) with done := dn }
     else none
@@ -510,13 +524,23 @@ def Pool.step (p : Pool) : Ev → Option Pool
     let s := p.slot i
     match s.eni with
     | some _ =>
-      let s1 := s.assigned six res
-      let dn := preheatIn p s1 ++ p.done
-      some { p.upd i (fun _ => if toHead then s1.faHeadPurge dn else s1) with done := dn }
+      -- the cloud hands out addresses of the asked family that the interface does not have yet, at most as
+      -- many as were asked for
+      if decide (res.ips.length ≤ (if six then s.plan6 else s.plan4)) && res.ips.Nodup &&
+          res.ips.all (fun ip => decide (v6Base ≤ ip) == six && !(s.ips.any (·.ip == ip))) then
+        let s0 := s.assigned six res
+        let s1 := if six then { s0 with plan6 := 0 } else { s0 with plan4 := 0 }
+        let dn := preheatIn p s1 ++ p.done
+        some { p.upd i (fun _ => if toHead then s1.faHeadPurge dn else s1) with done := dn }
+      else none
     | none => none
   | .release i eni pod ips =>
-    some { p.upd i (fun s => s.release eni pod ips) with
-           acks := p.acks.filter fun a => !(a.1 == pod && a.2.1 == eni && a.2.2 ∈ ips) }
+    -- the slot that has the ENI takes it; requests of one pod do not overlap (the daemon's pending-pod
+    -- guard, C04): no release while a reply to the same pod is still on its way
+    if (p.slot i).eni == some eni && !(p.commits.any (·.pod == pod)) then
+      some { p.upd i (fun s => s.release eni pod ips) with
+             acks := p.acks.filter fun a => !(a.1 == pod && a.2.1 == eni && a.2.2 ∈ ips) }
+    else none
   | .dispose i n out =>
     if (p.slot i).disposeOK p.done n out then some (p.upd i fun s => s.dispose p.done n out) else none
   | .sync i remote => some (p.upd i fun s => s.sync remote)
